@@ -55,13 +55,21 @@ type model struct {
 	Belief   map[int]bool   `json:"believed_healthy"`
 	Mode     map[int]string `json:"stub_healthz_mode"`
 	Subsets  [][]int        `json:"policy_subsets"` // per policy; empty = no subset; may name stubs that are not servers
+	// Dup[e]: server e is listed TWICE (validation accepts duplicates; a patch that appends an entry instead of editing
+	// the existing one produces them). For a disabled server the second entry does not carry the flag and stands
+	// "before" or "after" the flagged one; an endpoint is marked disabled when any of its entries says so. For an enabled
+	// server both entries are alike ("same").
+	Dup map[int]string `json:"listed_twice,omitempty"`
 	// Bad, when set, is one more entry of the object's server list: an endpoint string for which no client can be built
 	// (the controller's sync of such an object fails half-way and asks for a requeue). It is never pickable.
 	Bad string `json:"unbuildable_server,omitempty"`
 }
 
 func (m *model) clone() *model {
-	c := &model{Disabled: map[int]bool{}, Belief: map[int]bool{}, Mode: map[int]string{}, Bad: m.Bad}
+	c := &model{Disabled: map[int]bool{}, Belief: map[int]bool{}, Mode: map[int]string{}, Bad: m.Bad, Dup: map[int]string{}}
+	for k, v := range m.Dup {
+		c.Dup[k] = v
+	}
 	c.Servers = append(c.Servers, m.Servers...)
 	for k, v := range m.Disabled {
 		if v {
@@ -233,7 +241,31 @@ func (h *hist) object(m *model) *proxyv1alpha1.UpstreamCluster {
 			Rules:          []proxyv1alpha1.DispatchPolicyRule{{Verbs: []string{"*"}, APIGroups: []string{"*"}, Resources: []string{fmt.Sprintf("r%d", p)}}},
 		})
 	}
-	return bed.BuildCluster(bed.ClusterSpec{Name: h.host, Servers: servers, Disabled: dis, Policies: ps, Token: h.gwTok})
+	obj := bed.BuildCluster(bed.ClusterSpec{Name: h.host, Servers: servers, Disabled: dis, Policies: ps, Token: h.gwTok})
+	if len(m.Dup) > 0 {
+		var list []proxyv1alpha1.UpstreamClusterServer
+		for _, sv := range obj.Spec.Servers {
+			plain := proxyv1alpha1.UpstreamClusterServer{Endpoint: sv.Endpoint}
+			where := ""
+			for e, w := range m.Dup {
+				if h.stubs[e].URL == sv.Endpoint && m.isServer(e) {
+					where = w
+				}
+			}
+			switch where {
+			case "before":
+				list = append(list, plain, sv)
+			case "after":
+				list = append(list, sv, plain)
+			case "same":
+				list = append(list, sv, sv)
+			default:
+				list = append(list, sv)
+			}
+		}
+		obj.Spec.Servers = list
+	}
+	return obj
 }
 
 func (h *hist) fail(reason string) {
@@ -627,7 +659,14 @@ func (h *hist) genChange(g *vkit.Rand, allowHang bool, tickerWait bool) *change 
 			}
 			e := g.PickInt(cand)
 			after.Disabled[e] = true
-			return &change{Kind: "disable", Target: e, after: after, run: func() bool {
+			delete(after.Dup, e)
+			if g.Chance(0.4) {
+				after.Dup[e] = []string{"before", "after"}[g.Intn(2)]
+			}
+			return &change{Kind: "disable", Target: e, Detail: "listed twice: " + after.Dup[e], after: after, run: func() bool {
+				if after.Dup[e] != "" {
+					h.r.Count("disable_steps_with_a_second_unflagged_entry_"+after.Dup[e], 1)
+				}
 				ep := h.endpoint(e)
 				class := "idle-at-disable"
 				if !h.apply(after) {
@@ -655,6 +694,10 @@ func (h *hist) genChange(g *vkit.Rand, allowHang bool, tickerWait bool) *change 
 			}
 			e := g.PickInt(cand)
 			delete(after.Disabled, e)
+			delete(after.Dup, e)
+			if g.Chance(0.2) {
+				after.Dup[e] = "same"
+			}
 			after.Belief[e] = healthyMode(h.modes[e])
 			return &change{Kind: "enable", Target: e, after: after, run: func() bool {
 				if di := h.open[e]; di != nil {
@@ -687,8 +730,13 @@ func (h *hist) genChange(g *vkit.Rand, allowHang bool, tickerWait bool) *change 
 			pos := g.Intn(len(after.Servers) + 1)
 			after.Servers = append(after.Servers[:pos:pos], append([]int{e}, m.Servers[pos:]...)...)
 			after.Mode[e] = modeName[nm]
+			delete(after.Dup, e)
 			if dis {
 				after.Disabled[e] = true
+				if g.Chance(0.4) {
+					after.Dup[e] = []string{"before", "after"}[g.Intn(2)]
+					h.r.Count("created_disabled_with_a_second_unflagged_entry", 1)
+				}
 			}
 			// a new endpoint starts as unhealthy and is probed at once unless it is created disabled
 			after.Belief[e] = !dis && healthyMode(nm)
@@ -721,6 +769,7 @@ func (h *hist) genChange(g *vkit.Rand, allowHang bool, tickerWait bool) *change 
 			}
 			after.Servers = append(after.Servers[:i:i], m.Servers[i+1:]...)
 			delete(after.Disabled, e)
+			delete(after.Dup, e)
 			delete(after.Belief, e)
 			return &change{Kind: "server-remove", Target: e, after: after, run: func() bool {
 				if di := h.open[e]; di != nil {
@@ -744,6 +793,7 @@ func (h *hist) genChange(g *vkit.Rand, allowHang bool, tickerWait bool) *change 
 			}
 			after.Servers = append(after.Servers[:i:i], m.Servers[i+1:]...)
 			delete(after.Disabled, e)
+			delete(after.Dup, e)
 			delete(after.Belief, e)
 			// Both pass the API's "starts with http:// or https://" test; url.Parse rejects them when the client is built.
 			after.Bad = []string{"http://[::1", "http://a b", "https://[fe80::1%en0", "http://bad host:6443"}[g.Intn(4)]
@@ -821,7 +871,7 @@ func runHistory(r *vkit.R, id int, g *vkit.Rand, steps int, allowHang, tickerWai
 	h := newHist(r, id, k)
 	defer h.close()
 	h.np = g.Range(1, 3)
-	m := &model{Disabled: map[int]bool{}, Belief: map[int]bool{}, Mode: map[int]string{}}
+	m := &model{Disabled: map[int]bool{}, Belief: map[int]bool{}, Mode: map[int]string{}, Dup: map[int]string{}}
 	perm := g.Perm(k)
 	ns := g.Range(1, k)
 	for i := 0; i < k; i++ {
@@ -837,6 +887,10 @@ func runHistory(r *vkit.R, id int, g *vkit.Rand, steps int, allowHang, tickerWai
 		m.Servers = append(m.Servers, e)
 		if ns > 1 && g.Chance(0.15) {
 			m.Disabled[e] = true
+			if g.Chance(0.5) {
+				m.Dup[e] = []string{"before", "after"}[g.Intn(2)]
+				r.Count("created_disabled_with_a_second_unflagged_entry", 1)
+			}
 		}
 		m.Belief[e] = !m.Disabled[e] && healthyMode(h.modes[e])
 	}
@@ -1464,6 +1518,7 @@ func TestCheck(t *testing.T) {
 		r.Require(r.Counter("disabled_intervals_judged") >= int64(tierN(r, 40, 500)), "too few disabled intervals judged")
 		r.Require(r.Counter("disabled_triggers") >= int64(tierN(r, 60, 900)), "too few TriggerHealthCheck calls on disabled endpoints")
 		r.Require(r.Counter("hung_probe_scenarios") >= int64(hung*8/10), "too few hung-probe scenarios completed")
+		r.Require(r.Counter("disable_steps_with_a_second_unflagged_entry_before")+r.Counter("created_disabled_with_a_second_unflagged_entry") >= int64(tierN(r, 3, 60)) && r.Counter("disable_steps_with_a_second_unflagged_entry_after") >= int64(tierN(r, 3, 60)), "too few disabled servers that are listed a second time without the flag")
 		r.Require(r.Counter("change_cluster-recreate") >= int64(tierN(r, 10, 200)), "too few delete-and-recreate steps")
 		r.Require(r.Counter("histories_with_a_twin_cluster_sharing_upstreams") >= int64(tierN(r, 8, 120)) && r.Counter("requests_twin") >= int64(tierN(r, 300, 6000)), "too few histories with a twin cluster")
 		r.Require(r.Counter("requests_during_cluster_creation") >= int64(tierN(r, 150, 2500)), "too few requests sent while a cluster was being created")
